@@ -347,6 +347,9 @@ impl Property for C08 {
         let mut crossed = false;
         let force_bulk = ctx.knobs.variant == 1;
         for step in 0..nops {
+            if src.exhausted() && step > 0 {
+                break;
+            }
             let op = if force_bulk && step == 0 {
                 6
             } else {
